@@ -36,8 +36,12 @@ type History struct {
 	// transactions T1..Tn each spending exactly its own coin (entry point
 	// EP1, explicit input), optionally a child C1 of T1, then the final
 	// resynchronisation End whose per-position answers are enumerated.
-	Indep int  `json:"independent,omitempty"`
-	Child bool `json:"child_of_t1,omitempty"`
+	// ExtChild: after S1 the wallet is notified (unconfirmed RelevantTx) of
+	// an externally built transaction E1 that spends S1's EXTERNAL payment
+	// output and pays a fresh wallet address.
+	ExtChild bool `json:"ext_child,omitempty"`
+	Indep    int  `json:"independent,omitempty"`
+	Child    bool `json:"child_of_t1,omitempty"`
 }
 
 func (h History) String() string {
@@ -59,6 +63,9 @@ func (h History) String() string {
 		return strings.Join(p, " ")
 	}
 	p = append(p, "S1:"+h.EP1)
+	if h.ExtChild {
+		p = append(p, "seen(E1 spends S1:ext)")
+	}
 	if h.Mid != "" {
 		p = append(p, h.Mid)
 	}
@@ -175,7 +182,7 @@ func (x *exec) txName(h chainhash.Hash) string {
 func (x *exec) opName(op wire.OutPoint) string {
 	n := x.txName(op.Hash)
 	tx := x.txs[n]
-	if tx == nil || n[0] == 'F' || n == "X" || int(op.Index) >= len(tx.TxOut) {
+	if tx == nil || n[0] == 'F' || n[0] == 'E' || n == "X" || int(op.Index) >= len(tx.TxOut) {
 		return fmt.Sprintf("%s:%d", n, op.Index)
 	}
 	if string(tx.TxOut[op.Index].PkScript) == string(x.ext) {
@@ -454,6 +461,9 @@ func (x *exec) run(simID int) {
 	if x.failed {
 		return
 	}
+	if x.h.ExtChild {
+		x.seenExtChild()
+	}
 	if x.h.Mid != "" {
 		x.resync(x.h.Mid)
 		if x.failed {
@@ -486,6 +496,8 @@ func (a *alphabets) initial(which, ep string) []Answer {
 		src = a.full
 	case "extra":
 		src = a.extra
+	case "tiny":
+		return a.tiny
 	}
 	if ep != "publish" {
 		return src
@@ -552,6 +564,51 @@ func (x *exec) runIndep() {
 	}
 	x.where = "final"
 	x.observe()
+}
+
+// seenExtChild: while S1 is recorded as unconfirmed, the backend notifies an
+// unconfirmed transaction E1 (built outside the wallet, unsigned) that spends
+// S1's external payment output and pays a fresh wallet address.
+func (x *exec) seenExtChild() {
+	x.where = "seen:E1"
+	s1 := x.txs["S1"]
+	if s1 == nil {
+		return
+	}
+	pre := x.observe()
+	if count(pre.Unmined, s1.TxHash()) == 0 {
+		x.tracef("E1 skipped: S1 is not recorded")
+		return
+	}
+	addr, err := x.s.W.NewAddress(0, scope84)
+	if err != nil {
+		ev.Fatal("NewAddress: %v", err)
+	}
+	pk, err := txscript.PayToAddrScript(addr)
+	if err != nil {
+		ev.Fatal("script: %v", err)
+	}
+	e := wire.NewMsgTx(2)
+	for i, o := range s1.TxOut {
+		if string(o.PkScript) == string(x.ext) {
+			e.AddTxIn(wire.NewTxIn(&wire.OutPoint{Hash: s1.TxHash(), Index: uint32(i)}, nil, nil))
+			e.AddTxOut(wire.NewTxOut(o.Value-1000, pk))
+		}
+	}
+	if len(e.TxIn) != 1 {
+		ev.Fatal("S1 has no external output (%s)", x.h)
+	}
+	x.register("E1", e)
+	x.pre["E1"] = pre
+	x.order = append(x.order, "E1")
+	x.s.SeenUnconfirmed(e)
+	x.dirty = true
+	x.res.Ops++
+	post := x.observe()
+	x.tracef("seen unconfirmed E1 (spends S1:ext, pays the wallet %d) -> %s", e.TxOut[0].Value, x.render(post, true))
+	if count(post.Unmined, e.TxHash()) != 1 {
+		ev.Fatal("E1 was not recorded by the wallet (%s): %s", x.h, x.render(post, true))
+	}
 }
 
 // broadcastSpec performs one initial hand-over and checks clauses (1)-(4).
@@ -987,6 +1044,11 @@ func (x *exec) resync(kind string) {
 		for _, in := range t.TxIn {
 			if removed[in.PreviousOutPoint.Hash] {
 				continue
+			}
+			if src := x.txs[x.txName(in.PreviousOutPoint.Hash)]; src != nil && src.TxHash() == in.PreviousOutPoint.Hash &&
+				int(in.PreviousOutPoint.Index) < len(src.TxOut) &&
+				string(src.TxOut[in.PreviousOutPoint.Index].PkScript) == string(x.ext) {
+				continue // not a wallet coin (external payment output)
 			}
 			if first == nil {
 				okDelta = false
